@@ -83,6 +83,46 @@ def ps(K):
             row("PS", K - 1, tandem=True)]
 
 
+from . import combos as _combos
+
+# feature pairs that run into recorded defects (F7, F10, F13) and are swept only where that finding is listed
+_F7 = [{"sc_resume", x} for x in ("block", "block1", "selfloop", "loop")]
+_F10 = [{r, x} for r in ("renege", "jockey") for x in ("pre_resume", "pre_restart", "pre_resample")]
+_F13 = [{r, x} for r in ("selfloop", "loop") for x in ("pre_reroute", "sc_reroute")]
+# blocking together with pre-emption is outside C07 / C11 (and makes interrupted blocked customers)
+_BLOCKPRE = [{b, x} for b in ("block", "block1", "selfloop", "loop") for x in ("pre_resume", "pre_restart", "pre_resample", "pre_reroute", "sc_resume", "sc_restart", "sc_resample", "sc_reroute", "slcap")]
+
+
+def combo_rows(K, include=None, exclude=(), skip=(), allow=(), mons=None, K2=None, extra=None):
+    """GEN rows for single features and feature pairs; `include`: at least one feature of the pair is in this set;
+    `exclude`: features never used; `skip`: pairs (sets) left out; two-class combinations get the lighter load"""
+    out = []
+    skip = [set(x) for x in skip]
+    allow = [set(x) for x in allow]
+    for fs, params in _combos.pairs(include=include, exclude=exclude):
+        fset = set(fs)
+        bad = [x for x in (_F7 + _F10 + _F13) if x <= fset and x not in allow]
+        if bad or any(x <= fset for x in skip):
+            continue
+        p = dict(params)
+        two = p.get("classes", 1) > 1
+        k = K
+        if two:
+            p["burst"] = 1
+            p["first"] = 2
+            if p.get("ccwait"):
+                k = K - 1
+        if K2 is not None and two:
+            k = min(k, K2)
+        if extra:
+            p.update(extra)
+        r = row("GEN", k, **p)
+        if mons:
+            r["mons"] = mons
+        out.append(r)
+    return out
+
+
 CORE = "Simulation.event_and_return_nextnode find_next_active_node simulate_until_max_time ArrivalNode.have_event release_individual decide_baulk send_individual Node.accept release finish_service block_individual release_blocked_individual begin_service_if_possible_accept/_release/_change_shift update_next_event_date decide_next_event write_*_record ExitNode.accept".split(" ")
 
 
@@ -96,10 +136,12 @@ def prop(pid, **kw):
 # C01 ------------------------------------------------------------------------------------------------
 prop("C01", mons=["C01"],
      quick=lambda: plain(5) + blocking(5) + priorities(5) + preemption(5) + schedules(5) + slotted(4) + reneging(5) + baulking(4)
-     + classchange(5) + routing(5) + ps(5) + with_ties([row("Q1", 5, c=1), row("T2", 5), row("L2", 4, first=[2, 2], burst=1), row("RN", 5)]),
+     + classchange(5) + routing(5) + ps(5) + with_ties([row("Q1", 5, c=1), row("T2", 5), row("L2", 4, first=[2, 2], burst=1), row("RN", 5)])
+     + combo_rows(5, include={"renege", "jockey", "pre_reroute", "sc_reroute", "batch", "baulk", "ccwait", "ps", "slcap", "selfloop", "loop", "jsq"}),
      thorough=lambda: bump(plain(5) + blocking(5) + priorities(5) + preemption(5) + schedules(5) + slotted(4) + reneging(5) + baulking(4)
                            + classchange(5) + routing(5) + ps(5), 1)
-     + with_ties(plain(5) + blocking(5) + priorities(5) + preemption(5) + schedules(5) + reneging(5) + routing(5) + ps(5), -1),
+     + with_ties(plain(5) + blocking(5) + priorities(5) + preemption(5) + schedules(5) + reneging(5) + routing(5) + ps(5), -1)
+     + combo_rows(6),
      vacuity=["c01_in_nodes", "c01_at_exit"],
      functions=CORE + ["Node.renege", "Node.reroute", "Node.preempt", "Node.change_priority_queue", "PSNode.*", "Node.slotted_service", "Node.change_shift"])
 
@@ -108,12 +150,14 @@ prop("C02", mons=["C02"],
      quick=lambda: plain(5) + blocking(5) + priorities(5) + preemption(5) + schedules(5) + slotted(4) + reneging(5) + baulking(4)
      + classchange(5) + routing(4) + ps(5) + [row("SC", 7, pre="resume", blocked=True), row("SC", 6, pre="restart", blocked=True),
                                                row("RN", 4, prio=True, pre="resume"), row("T2", 5, prio=True)]
-     + with_ties([row("Q1", 5, c=1), row("T2", 5), row("RN", 5), row("SC", 5)]),
+     + with_ties([row("Q1", 5, c=1), row("T2", 5), row("RN", 5), row("SC", 5)])
+     + combo_rows(5, include={"sc", "sc_resume", "sc_restart", "sc_resample", "sc_reroute", "sl", "slcap", "renege", "jockey", "ps", "offset", "pre_resume", "pre_restart"}, allow=_F7 + _F10),
      thorough=lambda: bump(plain(5) + blocking(5) + priorities(5) + preemption(5) + schedules(5) + slotted(4) + reneging(5) + baulking(4)
                            + classchange(5) + routing(4) + ps(5), 1)
      + [row("SC", 8, pre="resume", blocked=True), row("SC", 7, pre="restart", blocked=True), row("SC", 7, pre="resample", blocked=True),
         row("SC", 7, pre="reroute", blocked=True), row("RN", 5, prio=True, pre="resume"), row("RN", 5, prio=True, pre="restart"), row("T2", 6, prio=True)]
-     + with_ties(plain(5) + blocking(5) + priorities(5) + preemption(5) + schedules(5) + reneging(5) + ps(5), -1),
+     + with_ties(plain(5) + blocking(5) + priorities(5) + preemption(5) + schedules(5) + reneging(5) + ps(5), -1)
+     + combo_rows(6, allow=_F7 + _F10),
      vacuity=["c02_service_records", "c02_interrupted_records", "c02_renege_records", "c02_terminal_records"],
      functions=CORE + ["Node.get_reneging_date", "Node.give_service_time_after_preemption", "Node.interrupt_service", "Node.begin_interrupted_individuals_service", "Node.wrap_up_servers"])
 
@@ -121,9 +165,11 @@ prop("C02", mons=["C02"],
 prop("C03", mons=["C03"],
      quick=lambda: plain(5) + blocking(5) + preemption(5) + schedules(5, (False, "resume", "reroute")) + reneging(5) + baulking(4)
      + classchange(5) + routing(5) + [row("SC", 6, pre="reroute", blocked=True), row("SC", 7, pre="resume", blocked=True, burst=3), row("SC", 7, pre="restart", blocked=True, burst=3),
-                                      row("T2", 6, prio=True, c1=2, first=2, burst=1)] + with_ties([row("T2", 5), row("RN", 5, jockey=True)]),
+                                      row("T2", 6, prio=True, c1=2, first=2, burst=1)] + with_ties([row("T2", 5), row("RN", 5, jockey=True)])
+     + combo_rows(5, include={"pre_reroute", "sc_reroute", "sc_resume", "renege", "jockey", "baulk", "block", "ccafter", "jsq", "slcap"}),
      thorough=lambda: bump(plain(5) + blocking(5) + preemption(5) + schedules(5) + reneging(5) + baulking(4) + classchange(5) + routing(5), 1)
-     + with_ties(blocking(5) + preemption(5) + reneging(5) + routing(5), -1),
+     + with_ties(blocking(5) + preemption(5) + reneging(5) + routing(5), -1)
+     + combo_rows(6),
      vacuity=["c03_customers", "c03_chained"],
      functions=CORE + ["Node.write_individual_record", "Node.write_interruption_record", "Node.write_reneging_record", "Node.write_baulking_or_rejection_record", "Node.reset_individual_attributes", "Node.reroute"])
 
@@ -136,10 +182,12 @@ def c04_extra(K):
 prop("C04", mons=["C04"],
      quick=lambda: [row("Q1", 6, c=1), row("Q1", 5, c=2), row("Q1", 5, c=2, first=3)] + blocking(5) + priorities(5) + preemption(5) + schedules(5) + c04_extra(5)
      + [dict(r, mons=["C04", "C04Util"]) for r in [row("Q1", 5, c=2), row("T2", 5), row("SC", 5), row("P1", 5, c=1), row("L2", 4, first=[2, 2], burst=1)]]
-     + with_ties([row("Q1", 5, c=2), row("T2", 5)]),
+     + with_ties([row("Q1", 5, c=2), row("T2", 5)])
+     + combo_rows(5, include={"c2", "sc", "sc_resume", "sc_restart", "sc_resample", "sc_reroute", "pre_resume", "pre_restart", "pre_reroute", "block"}, exclude=("ps", "cinf", "sl", "slcap"), allow=_F13),
      thorough=lambda: bump([row("Q1", 6, c=1), row("Q1", 5, c=2), row("Q1", 5, c=2, first=3)] + blocking(5) + priorities(5) + preemption(5) + schedules(5), 1)
      + [dict(r, mons=["C04", "C04Util"]) for r in [row("Q1", 6, c=2), row("T2", 6), row("SC", 6), row("SC", 6, offset=0.5, first=2), row("P1", 6, c=1), row("L2", 5, first=[2, 2], burst=1), row("S1", 6, c=2, cap_=1, first=2)]]
-     + with_ties(blocking(5) + preemption(5) + schedules(5), -1),
+     + with_ties(blocking(5) + preemption(5) + schedules(5), -1)
+     + combo_rows(6, exclude=("ps", "cinf", "sl", "slcap"), allow=_F13),
      vacuity=["c04_in_service", "c04_kept_server", "c04_interval_pairs", "c04_util_checked"],
      functions=["Node.attach_server", "Node.detatch_server", "Node.find_free_server", "Node.preempt", "Node.take_servers_off_duty", "Node.kill_server", "Node.add_new_servers", "Node.wrap_up_servers", "Node.find_server_utilisation"] + CORE)
 
@@ -149,10 +197,12 @@ prop("C05", mons=["C05"],
      + [row("Q1", 5, c=1, discipline="SIRO", first=2), row("RN", 4, blockedinto=True), row("RN", 5, blockedinto=True, first=2, burst=2),
         row("SC", 5, pre="resume", values=[2, 2], bounds=[1, 3], first=2), row("SC", 5, pre="restart", values=[2, 1, 3], bounds=[1, 2, 3], first=3),
         row("SC", 5, pre="resample", values=[3, 0, 3], bounds=[1, 2, 3], first=3), row("SC", 8, pre="restart", blocked=True, burst=3)]
-     + with_ties([row("Q1", 5, c=2), row("T2", 5), row("SC", 5, pre="resume")]),
+     + with_ties([row("Q1", 5, c=2), row("T2", 5), row("SC", 5, pre="resume")])
+     + combo_rows(5, include={"c2", "sc", "sc_resume", "sc_restart", "sc_resample", "pre_resume", "pre_restart", "renege", "ccwait", "lifo", "siro", "block"}, exclude=("ps", "cinf", "sl", "slcap")),
      thorough=lambda: bump(plain(5) + blocking(5) + priorities(5) + preemption(5) + schedules(5) + reneging(5) + classchange(5), 1)
      + [row("Q1", 6, c=1, discipline="SIRO", first=2), row("RN", 5, blockedinto=True)]
-     + with_ties(plain(5) + blocking(5) + preemption(5) + schedules(5) + reneging(5), -1),
+     + with_ties(plain(5) + blocking(5) + preemption(5) + schedules(5) + reneging(5), -1)
+     + combo_rows(6, exclude=("ps", "cinf", "sl", "slcap")),
      vacuity=["c05_zero_wait", "c05_waiting_seen", "c05_start_on_freed_server"],
      functions=["Node.begin_service_if_possible_accept", "Node.begin_service_if_possible_release", "Node.begin_service_if_possible_change_shift", "Node.begin_interrupted_individuals_service", "Node.choose_next_customer", "Node.change_customer_class_while_waiting"] + CORE)
 
@@ -166,8 +216,10 @@ def cap_rows(K):
 
 
 prop("C06", mons=["C06"],
-     quick=lambda: cap_rows(5) + with_ties(cap_rows(5)[:6], -1),
-     thorough=lambda: bump(cap_rows(5), 1) + with_ties(cap_rows(5), 0),
+     quick=lambda: cap_rows(5) + with_ties(cap_rows(5)[:6], -1)
+     + combo_rows(5, include={"cap1", "syscap", "batch", "block1"}, exclude=("sc", "sc_resume", "sc_restart", "sc_resample", "sc_reroute", "sl", "slcap", "pre_reroute", "jockey")),
+     thorough=lambda: bump(cap_rows(5), 1) + with_ties(cap_rows(5), 0)
+     + combo_rows(6, include={"cap1", "syscap", "batch", "block1", "block", "selfloop", "loop"}, exclude=("sc", "sc_resume", "sc_restart", "sc_resample", "sc_reroute", "sl", "slcap", "pre_reroute", "jockey")),
      vacuity=["c06_rejections", "c06_admitted"],
      functions=["ArrivalNode.release_individual", "Simulation.number_of_individuals", "Node.__init__ (node_capacity)", "Node.finish_service", "ArrivalNode.have_event", "ArrivalNode.batch_size"])
 
@@ -180,8 +232,10 @@ def c07_rows(K):
 
 
 prop("C07", mons=["C07"],
-     quick=lambda: c07_rows(5) + with_ties([row("T2", 5), row("T2", 5, c1=3, first=3, burst=1), row("L2", 4), row("S1", 5)]),
-     thorough=lambda: bump(c07_rows(5), 1) + with_ties(c07_rows(5), -1),
+     quick=lambda: c07_rows(5) + with_ties([row("T2", 5), row("T2", 5, c1=3, first=3, burst=1), row("L2", 4), row("S1", 5)])
+     + combo_rows(5, include={"block", "block1", "selfloop", "loop"}, skip=_BLOCKPRE),
+     thorough=lambda: bump(c07_rows(5), 1) + with_ties(c07_rows(5), -1)
+     + combo_rows(6, include={"block", "block1", "selfloop", "loop"}, skip=_BLOCKPRE),
      vacuity=["c07_blockages", "c07_unblockings", "c07_blocked_seen"],
      functions=["Node.finish_service", "Node.block_individual", "Node.release", "Node.release_blocked_individual", "Node.update_next_end_service_with_server", "Node.renege"])
 
@@ -196,8 +250,10 @@ def c08_rows(K):
 
 
 prop("C08", mons=["C08"],
-     quick=lambda: c08_rows(5) + with_ties([row("Q1", 5, c=1, first=3), row("P1", 5, c=1)]),
-     thorough=lambda: bump(c08_rows(5), 1) + with_ties(c08_rows(5), -1),
+     quick=lambda: c08_rows(5) + with_ties([row("Q1", 5, c=1, first=3), row("P1", 5, c=1)])
+     + combo_rows(5, include={"lifo", "siro", "prio", "pre_resume", "pre_restart", "pre_resample", "pre_reroute"}, exclude=("ps", "cinf")),
+     thorough=lambda: bump(c08_rows(5), 1) + with_ties(c08_rows(5), -1)
+     + combo_rows(6, exclude=("ps", "cinf")),
      vacuity=["c08_choices", "c08_starts", "c08_real_choice", "c08_pairs"],
      functions=["Node.choose_next_customer", "disciplines.FIFO", "disciplines.LIFO", "disciplines.SIRO", "Node.begin_service_if_possible_*", "Node.slotted_service", "Node.decide_preempt"])
 
@@ -206,20 +262,23 @@ def c09_rows(K):
     return routing(K) + [row("CCa", K), row("CCa", K, nodes=2, prio=True), row("T2", K), row("L2", K - 1, p=0.5), row("S1", K, p=0.5),
                          row("JSQP", K, burst=1, first=2), row("JSQP", K - 1, burst=2), row("P1", K - 1, c=1, pre="reroute", to=2),
                          row("JSQP", K, burst=1, first=2, pre="resume"), row("JSQP", K, burst=1, pre="restart", tie="random"), row("RT", K, router="jsq", c=[1, 2, 1], first=4, tie="order"),
-                         row("RT", K, router="jsq", c=[2, 2, 1], first=4, a23=True)]
+                         row("RT", K, router="jsq", c=[2, 2, 1], first=4, burst=1)]
 
 
 prop("C09", mons=["C09"],
      quick=lambda: c09_rows(5) + [crow("custom:unit_random_choice", 1, weighted=True), crow("custom:unit_random_choice", 1, weighted=False)]
-     + with_ties([row("RT", 5, router="jsq"), row("RT", 5, router="prob0")]),
+     + with_ties([row("RT", 5, router="jsq"), row("RT", 5, router="prob0")])
+     + combo_rows(5, include={"jsq", "ccafter", "selfloop", "loop", "pre_reroute", "sc_reroute"}),
      thorough=lambda: bump(c09_rows(5), 1) + [crow("custom:unit_random_choice", 1, weighted=True), crow("custom:unit_random_choice", 1, weighted=False),
-                                              row("JSQP", 8, burst=1, first=2), row("JSQP", 7, burst=2, first=2)] + with_ties(c09_rows(5), -1),
+                                              row("JSQP", 8, burst=1, first=2), row("JSQP", 7, burst=2, first=2)] + with_ties(c09_rows(5), -1)
+     + combo_rows(6, include={"jsq", "ccafter", "selfloop", "loop", "pre_reroute", "sc_reroute", "prio", "ccwait", "block", "block1"}),
      vacuity=["c09_prob", "c09_prob_with_zero_entry", "c09_direct", "c09_leave", "c09_cycle", "c09_jsq", "c09_lb", "c09_process", "c09_flex", "c09_class_changes", "c09_unit_sampled", "c09_unit_uniform", "c09_jsq_unequal"],
-     functions=["auxiliary.random_choice", "routing.*.next_node", "Node.next_node", "Node.next_node_for_rerouting", "Node.change_customer_class"])
+     functions=["auxiliary.random_choice", "routing.*.next_node", "Node.next_node", "Node.next_node_for_rerouting", "Node.change_customer_class"],
+     kernels=["k_random_choice.py"])
 
 # C10 ------------------------------------------------------------------------------------------------
 def c10_rows(K):
-    return [row("Q1", K, c=1), row("Q1", K, c=2, batch=[0, 1, 2, 3]), row("Q1", K, c="inf", batch=[1, 2]), row("P1", K, c=1), row("P1", K - 1, c=2, classes=3),
+    return [row("Q1", K, c=1), row("Q1", K - 1, c=2, batch=[0, 1, 2, 3]), row("Q1", K - 1, c="inf", batch=[1, 2]), row("Q1", K, c=2, batch=[0, 2], burst=2), row("P1", K, c=1), row("P1", K - 1, c=2, classes=3),
             row("T2", K, a2=True), row("T2", K, prio=True), row("L2", K - 1, p=0.5), row("SC", K), row("RN", K), row("RT", K, router="jsq")]
 
 
@@ -230,8 +289,10 @@ def c10_validity():
 
 
 prop("C10", mons=["C10"],
-     quick=lambda: c10_rows(5) + c10_validity() + with_ties([row("Q1", 5, c=2, batch=[0, 1, 2])]),
-     thorough=lambda: bump(c10_rows(5), 1) + c10_validity() + with_ties(c10_rows(5), -1),
+     quick=lambda: c10_rows(5) + c10_validity() + with_ties([row("Q1", 5, c=2, batch=[0, 1, 2])])
+     + combo_rows(5, include={"batch", "c2", "cinf", "prio", "sc", "block", "lifo", "siro", "cap1"}, exclude=("pre_resume", "pre_restart", "pre_resample", "pre_reroute", "sc_resume", "sc_restart", "sc_resample", "sc_reroute", "sl", "slcap", "ccafter", "ccwait", "ps")),
+     thorough=lambda: bump(c10_rows(5), 1) + c10_validity() + with_ties(c10_rows(5), -1)
+     + combo_rows(6, exclude=("pre_resume", "pre_restart", "pre_resample", "pre_reroute", "sc_resume", "sc_restart", "sc_resample", "sc_reroute", "sl", "slcap", "ccafter", "ccwait", "ps")),
      vacuity=["c10_arrival_events", "c10_services", "c10_nonunit_batches", "c10_validity_raised", "c10_validity_samples"],
      functions=["ArrivalNode.have_event", "ArrivalNode.inter_arrival", "ArrivalNode.batch_size", "ArrivalNode.initialise_event_dates_dict", "Node.get_service_time", "Distribution._sample"])
 
@@ -242,8 +303,10 @@ def c11_rows(K):
 
 
 prop("C11", mons=["C11"],
-     quick=lambda: c11_rows(5) + with_ties([row("P1", 5, c=1, pre="resume"), row("P1", 4, c=2, pre="restart")]),
-     thorough=lambda: bump(c11_rows(5), 1) + with_ties(c11_rows(5), -1),
+     quick=lambda: c11_rows(5) + with_ties([row("P1", 5, c=1, pre="resume"), row("P1", 4, c=2, pre="restart")])
+     + combo_rows(5, include={"pre_resume", "pre_restart", "pre_resample", "pre_reroute"}, exclude=("ccafter", "sc_resume", "sc_restart", "sc_resample", "sc_reroute"), skip=_BLOCKPRE),
+     thorough=lambda: bump(c11_rows(5), 1) + with_ties(c11_rows(5), -1)
+     + combo_rows(6, include={"pre_resume", "pre_restart", "pre_resample", "pre_reroute"}, exclude=("ccafter", "sc_resume", "sc_restart", "sc_resample", "sc_reroute"), skip=_BLOCKPRE),
      vacuity=["c11_preemptions", "c11_victim_choice", "c11_wait_and_serve", "c11_resume_completed", "c11_restart_completed", "c11_resample_completed"],
      functions=["Node.decide_preempt", "Node.preempt", "Node.give_individual_a_service_time", "Node.give_service_time_after_preemption", "Node.reroute"])
 
@@ -260,8 +323,10 @@ def c12_units():
 
 
 prop("C12", mons=["C12"],
-     quick=lambda: c12_rows(5) + c12_units() + with_ties([row("SC", 5), row("SC", 5, pre="resume"), row("SL", 5)]),
-     thorough=lambda: bump(c12_rows(5), 2) + c12_units() + with_ties(c12_rows(5), 0),
+     quick=lambda: c12_rows(5) + c12_units() + with_ties([row("SC", 5), row("SC", 5, pre="resume"), row("SL", 5)])
+     + combo_rows(5, include={"sc", "sc_resume", "sc_restart", "sc_resample", "sc_reroute", "sl", "slcap", "offset"}),
+     thorough=lambda: bump(c12_rows(5), 2) + c12_units() + with_ties(c12_rows(5), 0)
+     + combo_rows(7, include={"sc", "sc_resume", "sc_restart", "sc_resample", "sc_reroute", "sl", "slcap", "offset"}),
      vacuity=["c12_onduty_checks", "c12_shift_changes", "c12_overtime_services", "c12_shift_interruptions", "c12_interrupted_restarts", "c12_slots", "c12_slot_starts", "c12_unit_shifts", "c12_unit_slots"],
      functions=["Schedule.initialise", "Schedule.get_schedule_generator", "Schedule.get_next_shift", "Slotted.*", "Node.change_shift", "Node.take_servers_off_duty", "Node.add_new_servers", "Node.kill_server", "Node.begin_service_if_possible_change_shift", "Node.begin_interrupted_individuals_service", "Node.slotted_service", "Node.find_number_of_slotted_services", "Node.interrupt_slotted_services"])
 
@@ -273,8 +338,10 @@ def c13_rows(K):
 
 
 prop("C13", mons=["C13"],
-     quick=lambda: c13_rows(5) + with_ties([row("RN", 5), row("RN", 5, jockey=True), row("BK", 4, kind="sym")]),
-     thorough=lambda: bump(c13_rows(5), 1) + with_ties(c13_rows(5), -1),
+     quick=lambda: c13_rows(5) + with_ties([row("RN", 5), row("RN", 5, jockey=True), row("BK", 4, kind="sym")])
+     + combo_rows(5, include={"renege", "jockey", "baulk"}, allow=_F10),
+     thorough=lambda: bump(c13_rows(5), 1) + with_ties(c13_rows(5), -1)
+     + combo_rows(6, include={"renege", "jockey", "baulk"}, allow=_F10),
      vacuity=["c13_reneges", "c13_jockeys", "c13_waiting_with_patience", "c13_baulks", "c13_joins"],
      functions=["Node.get_reneging_date", "Node.update_next_renege_time", "Node.decide_next_event", "Node.renege", "ArrivalNode.decide_baulk"])
 
@@ -295,8 +362,10 @@ def c14_rows(K):
 
 
 prop("C14", mons=["C14"], exc_is_violation=True,
-     quick=lambda: c14_rows(5) + with_ties([row("Q1", 5, c=1), row("T2", 5), row("MC", 5, base="Q1", n=2, method="Finish", c=1)]),
-     thorough=lambda: bump(c14_rows(5), 1) + with_ties(c14_rows(5), -1),
+     quick=lambda: c14_rows(5) + with_ties([row("Q1", 5, c=1), row("T2", 5), row("MC", 5, base="Q1", n=2, method="Finish", c=1)])
+     + combo_rows(4, allow=_F7 + _F10 + _F13),
+     thorough=lambda: bump(c14_rows(5), 1) + with_ties(c14_rows(5), -1)
+     + combo_rows(6, allow=_F7 + _F10 + _F13),
      vacuity=["c14_returns_T", "c14_returns_n"],
      functions=["Simulation.simulate_until_max_time", "Simulation.simulate_until_max_customers", "create_network", "validify_dictionary", "Simulation.__init__"] + CORE)
 
@@ -385,8 +454,10 @@ def c19_rows(K):
 
 prop("C19", mons=["C19"],
      quick=lambda: c19_rows(5) + [crow("custom:ps_vs_fifo", 6, ties="forced", burst=2), crow("custom:ps_vs_fifo", 8, ties="forced", burst=3), crow("custom:ps_vs_fifo", 8, ties="forced", burst=1, first=3),
-                               crow("custom:ps_vs_fifo", 4, ties="forced"), crow("custom:ps_vs_fifo", 6, ties="all", burst=2)] + with_ties([row("PS", 5), row("PS", 5, capacity=2, threshold=2, first=3)]),
+                               crow("custom:ps_vs_fifo", 4, ties="forced"), crow("custom:ps_vs_fifo", 6, ties="all", burst=2)] + with_ties([row("PS", 5), row("PS", 5, capacity=2, threshold=2, first=3)])
+     + combo_rows(5, include={"ps"}),
      thorough=lambda: bump(c19_rows(5), 2) + [crow("custom:ps_vs_fifo", 6, ties="forced", burst=2), crow("custom:ps_vs_fifo", 8, ties="forced", burst=3), crow("custom:ps_vs_fifo", 10, ties="forced", burst=4), crow("custom:ps_vs_fifo", 10, ties="forced", burst=2, first=2),
-                                      crow("custom:ps_vs_fifo", 8, ties="forced", burst=1, first=4), crow("custom:ps_vs_fifo", 5, ties="forced"), crow("custom:ps_vs_fifo", 8, ties="all", burst=3), crow("custom:ps_vs_fifo", 8, ties="forced", burst=3, threshold=2)] + with_ties(c19_rows(5), 0),
+                                      crow("custom:ps_vs_fifo", 8, ties="forced", burst=1, first=4), crow("custom:ps_vs_fifo", 5, ties="forced"), crow("custom:ps_vs_fifo", 8, ties="all", burst=3), crow("custom:ps_vs_fifo", 8, ties="forced", burst=3, threshold=2)] + with_ties(c19_rows(5), 0)
+     + combo_rows(7, include={"ps"}),
      vacuity=["c19_departures", "c19_slowed", "c19_waiting_for_capacity", "c19_rel_pairs", "c19_rel_empties"],
      functions=["PSNode.update_all_service_end_dates", "PSNode.begin_service_if_possible_accept", "PSNode.begin_service_if_possible_release", "Node.release", "Node.update_next_end_service_without_server"])
